@@ -1,6 +1,7 @@
 SPECIFICATION Spec
 CONSTANTS
   Recorded = FALSE
+  Fault = "none"
   Policies <- Both
   Ratings <- R123
   ConvStarts <- CS3
